@@ -429,8 +429,25 @@ def transport_slot(chk: Check, repo: Repo) -> None:
     chk.ob("only-stop-clears-the-transport-slot", tl.site(), ok, "TCPTransport._connection_lost reports a loss only while the slot is set (the fact the rule above protects)", key="transport-slot|guard")
 
 
+def connect_does_not_swallow_a_stop(chk: Check, repo: Repo) -> None:
+    """`connect()` of an interface reports CONNECTED when the awaited set-up returns.  A set-up step that turns its own
+    cancellation - `stop()` cancels what it waits for - into a normal return makes connect() go on as if the step had
+    succeeded: CONNECTED is reported on a transport the user has just closed.  So in the routing connect path (transport
+    connect, secure timer synchronisation) no `except asyncio.CancelledError` handler ends without raising."""
+    n = 0
+    for mod, qual in (("xknx.io.ip_secure", "SecureGroup.connect"), ("xknx.io.ip_secure", "SecureSequenceTimer.synchronize"), ("xknx.io.transport.udp_transport", "UDPTransport.connect"), ("xknx.io.routing", "Routing.connect")):
+        f = repo.func(mod, qual)
+        chk.unit(f)
+        for h in [x for x in walk_local(f.node) if isinstance(x, ast.ExceptHandler) and x.type is not None and "CancelledError" in ast.unparse(x.type)]:
+            n += 1
+            ok = isinstance(h.body[-1], ast.Raise)
+            chk.ob("connect-does-not-swallow-a-stop", f.site(h), ok, f"{qual}: `except {ast.unparse(h.type)}` " + ("ends in raise" if ok else "returns normally: a stop() during this step lets connect() continue and report CONNECTED on the closed transport"), key=f"connect-swallows-cancel|{qual}")
+    chk.count("cancellation handlers in the routing connect path", n)
+
+
 def run(chk: Check, repo: Repo) -> None:
     transport_slot(chk, repo)
+    connect_does_not_swallow_a_stop(chk, repo)
     from .common_rules import dispatch_iterates_a_snapshot
     dispatch_iterates_a_snapshot(chk, repo, repo.func("xknx.core.connection_manager", "ConnectionManager._connection_state_changed"), "_connection_state_changed_cbs", "the state-change callbacks", "snapshot|state-callbacks")
     manager(chk, repo)
